@@ -12,6 +12,7 @@ import (
 	"sort"
 	"strconv"
 	"strings"
+	"sync"
 	"time"
 	"unicode/utf8"
 
@@ -410,6 +411,57 @@ func c04Worker(args []string) int {
 		}
 	}
 	hf.Write(hbuf)
+	if shard == -3 {
+		// independent parsers on 8 goroutines: totality must not depend on what
+		// other parsers in the process are doing (a crash here is process-fatal
+		// and is attributed to the journalled batch)
+		n := 24000
+		if thorough {
+			n = 400000
+		}
+		const G = 8
+		parts := make([]*c04result, G)
+		var wg sync.WaitGroup
+		journal("conc", 0)
+		for g := 0; g < G; g++ {
+			parts[g] = &c04result{Counters: map[string]int64{}}
+			wg.Add(1)
+			go func(g int) {
+				defer wg.Done()
+				for idx := g; idx < n; idx += G {
+					text, params := c04Case(seed, "mut", idx)
+					c04Exercise(text, params, parts[g], idx, "mut")
+					parts[g].Counters["inputs.concurrent"]++
+					// and a well-formed statement whose every lexeme is new to the
+					// process, so anything memoised per name, pattern or literal is
+					// being filled in by all goroutines at once
+					fresh := fmt.Sprintf("SELECT f%d, mean(\"g %d\") FROM db%d.rp%d./^m%d.*/ WHERE h%d =~ /^(a|b)%d$/ AND s != 's%d' AND time > now() - %dns GROUP BY time(%dms), /t%d/ TZ('UTC')", idx, idx, idx, idx, idx, idx, idx, idx, idx+1, idx+1, idx)
+					c04Exercise(fresh, nil, parts[g], idx, "fresh")
+					parts[g].Counters["inputs.concurrent-fresh"]++
+				}
+			}(g)
+		}
+		wg.Wait()
+		for _, pr := range parts {
+			for k, v := range pr.Counters {
+				res.Counters[k] += v
+			}
+			res.NViol += pr.NViol
+			res.Violations = append(res.Violations, pr.Violations...)
+			if pr.MaxScanPer > res.MaxScanPer {
+				res.MaxScanPer = pr.MaxScanPer
+			}
+			if pr.MaxReadPer > res.MaxReadPer {
+				res.MaxReadPer = pr.MaxReadPer
+			}
+			if pr.MaxTokPB > res.MaxTokPB {
+				res.MaxTokPB = pr.MaxTokPB
+			}
+			if pr.MaxRunePB > res.MaxRunePB {
+				res.MaxRunePB = pr.MaxRunePB
+			}
+		}
+	}
 	if shard == -2 {
 		for i, text := range c04Fatal() {
 			journal("fatal", i)
@@ -434,7 +486,7 @@ func c04Worker(args []string) int {
 
 func checkC04(c *Ctx) (string, bool, []string) {
 	r := c.R
-	rule := fmt.Sprintf("grammar-derived texts with 1-4 mutations (range deletion / duplication, splices, hostile fragments: %d kinds incl. NUL, invalid UTF-8, unterminated quotes and comments, stray $ and placeholders), random bytes, token soups; 25%% with parameter maps over every bindable kind and wrong kinds; structured stress (nesting depth 10..10^4 quick / 10^5 thorough for (, f(, -(, subqueries; chains and lists of 10^4/10^5 elements; tokens up to 128 KB quick / 1 MB thorough; unterminated everything). Every input through ParseQuery, ParseStatement, ParseExpr under recover, hook assertions and the step budget %d*(runes+1)+%d; accepted results are printed, walked and rewritten. Children with journals attribute process-fatal events. Non-trivial = non-empty input; distinct by text hash.", len(c04Hostile), c04K, c04C)
+	rule := fmt.Sprintf("grammar-derived texts with 1-4 mutations (range deletion / duplication, splices, hostile fragments: %d kinds incl. NUL, invalid UTF-8, unterminated quotes and comments, stray $ and placeholders), random bytes, token soups; 25%% with parameter maps over every bindable kind and wrong kinds; structured stress (nesting depth 10..10^4 quick / 10^5 thorough for (, f(, -(, subqueries; chains and lists of 10^4/10^5 elements; tokens up to 128 KB quick / 1 MB thorough; unterminated everything). Every input through ParseQuery, ParseStatement, ParseExpr under recover, hook assertions and the step budget %d*(runes+1)+%d; accepted results are printed, walked and rewritten. One child runs 24,000 (400,000) of the mutated texts on 8 goroutines with independent parsers. Children with journals attribute process-fatal events. Non-trivial = non-empty input; distinct by text hash.", len(c04Hostile), c04K, c04C)
 	assume := []string{"time proportional to input length is observed as scanner steps per input rune (logical time), not wall-clock", "printing is exercised for inputs up to 64 KB (String() is quadratic in nesting depth, which the property does not bound)", "a (non-nil result, non-nil error) pair counts as an error return"}
 	if c.Replay != nil {
 		res := &c04result{Counters: map[string]int64{}}
@@ -486,7 +538,7 @@ func checkC04(c *Ctx) (string, bool, []string) {
 		watchdog = 90 * time.Minute
 	}
 	var kids []*child
-	first := -2 // -2: known process-fatal witnesses, -1: structured stress, 0..: random shards
+	first := -3 // -3: independent parsers on 8 goroutines, -2: known process-fatal witnesses, -1: structured stress, 0..: random shards
 	for s := first; s < nsh; s++ {
 		k := &child{out: filepath.Join(tmp, fmt.Sprintf("out-%d.json", s)), journal: filepath.Join(tmp, fmt.Sprintf("journal-%d", s)), hashes: filepath.Join(tmp, fmt.Sprintf("hashes-%d", s)), stderr: filepath.Join(tmp, fmt.Sprintf("stderr-%d", s)), done: make(chan struct{})}
 		k.cmd = exec.Command(bin, "--worker", "c04", strconv.FormatInt(c.Seed, 10), c.Tier, strconv.Itoa(s), strconv.Itoa(nsh), k.out, k.journal, k.hashes)
@@ -553,7 +605,11 @@ func checkC04(c *Ctx) (string, bool, []string) {
 			if key != "" && label == "fatal" && r.Known(key, fmt.Sprintf("fatal-witness input %d (2,000,000 nested parentheses)", idx)) {
 				continue
 			}
-			r.Violation("process-fatal", map[string]interface{}{"label": label, "idx": idx, "why": fmt.Sprintf("worker %d died (%v) while parsing case %s/%d", s, k.err, label, idx), "stderr": tail})
+			why := fmt.Sprintf("worker %d died (%v) while parsing case %s/%d", s, k.err, label, idx)
+			if label == "conc" {
+				why = fmt.Sprintf("worker %d died (%v) while 8 goroutines were parsing independent inputs with independent parsers (cases mut/0.. of this seed)", s, k.err)
+			}
+			r.Violation("process-fatal", map[string]interface{}{"label": label, "idx": idx, "why": why, "stderr": tail})
 			continue
 		}
 		r.MergeCounts(res.Counters)
@@ -599,6 +655,6 @@ func checkC04(c *Ctx) (string, bool, []string) {
 	})
 	r.Require(maxScan > 0 && maxRead > 0, "hook counters never moved")
 	r.Require(maxScan*8 <= c04K && maxRead*8 <= c04K, fmt.Sprintf("step budget %d/rune is less than 8x the observed maximum (%.1f scans, %.1f reads per rune)", c04K, maxScan, maxRead))
-	r.Require(r.Counter("inputs.with-params") > 0 && r.Counter("inputs.stress") > 0 && r.Counter("outcome.accepted") > 0 && r.Counter("outcome.error") > 0, "input classes not covered")
+	r.Require(r.Counter("inputs.with-params") > 0 && r.Counter("inputs.stress") > 0 && r.Counter("inputs.concurrent") > 0 && r.Counter("outcome.accepted") > 0 && r.Counter("outcome.error") > 0, "input classes not covered")
 	return rule, false, assume
 }
